@@ -30,8 +30,10 @@ AggOK(t) == ~Has(t, "agg") \/ \A i \in DOMAIN t.agg :
               LET a == t.agg[i] IN
               IF a.full
               THEN Len(a.obs) = 1 /\ RatEq(a.obs[1], AggExpected(t, a))
-              ELSE \A k \in DOMAIN a.obs :          \* single-iteration mode walks the batches cyclically
-                      RatEq(a.obs[k], BatchExpected(t, a, ((k - 1) % Len(t.batches)) + 1))
+              ELSE /\ \A k \in DOMAIN a.obs :          \* single-iteration mode walks the batches cyclically
+                         RatEq(a.obs[k], BatchExpected(t, a, ((k - 1) % Len(t.batches)) + 1))
+                   /\ \A k \in DOMAIN a.obs_b :        \* ... and so does a second condition on the same loader, on its own
+                         RatEq(a.obs_b[k], BatchExpected(t, a, ((k - 1) % Len(t.batches)) + 1))
 
 \* after the data set's batch size was changed, the SAME condition aggregates the batches presented now
 PD_Vals2(t) == [i \in DOMAIN t.batches2 |-> [k \in DOMAIN t.batches2[i].br |-> Abs_(Sc(t).d[t.batches2[i].br[k] + 1])]]
@@ -98,6 +100,8 @@ DevOf(t, clause) ==
 
 Check(t) == IF Has(t, "driver_error") THEN "driver-error"
             ELSE IF Has(t, "error") THEN "call-failed:" \o (IF Len(t.error) > 1 THEN t.error[2] ELSE t.error[1])
+            \* the user's tensors are the user's: building loaders (also two from the same tensors) leaves them unchanged
+            ELSE IF Has(t, "user_same") /\ \E i \in DOMAIN t.user_same : ~t.user_same[i] THEN "user-tensors-modified-by-the-loader"
             ELSE IF Sc(t).kind = "points" THEN PD_Check(t) ELSE DO_Check(t)
 
 Init == tid \in 1..Len(Traces) /\ verdict = Check(Traces[tid])
